@@ -98,6 +98,16 @@ mod verif_noop {
     pub(crate) use never as event_enabled;
 }
 
+/// Verification hook: I/O leaves that are skipped under the guard.
+#[cfg(quickwit_oss_mrecordlog_verif)]
+#[allow(dead_code)]
+pub(crate) mod verif_io {
+    /// Tells `Directory::sync_directory` to skip its system calls (open + fdatasync + close).
+    pub(crate) fn skip_dir_fsync() -> bool {
+        true
+    }
+}
+
 /// Verification stand-in for `HashMap<String, V>` (association list, insertion order).
 #[cfg(quickwit_oss_mrecordlog_verif)]
 #[allow(dead_code)]
